@@ -594,6 +594,26 @@ func c11GenOps(seed uint64, nchan int, dir string) []c11Op {
 		}
 	}
 	ops = append(ops, c11Op{kind: "blk", text: "B"}, c11Op{kind: "blk", text: "B"})
+	if r.Chance(30) {
+		// directed: projectors accepted on a channel, then a pulse-length request (record length only / presamples
+		// only / both / unchanged), then blocks whose step triggers a record on that channel.  Placed right after
+		// the opening trigger request, where the lengths are still (32, 8) and writing is off.
+		ch := r.Intn(nchan)
+		rows := r.Pick(1, 2, 3)
+		lens := [][2]int{{16, 8}, {64, 8}, {32, 4}, {32, 16}, {16, 4}, {64, 16}, {32, 8}}[r.Intn(7)]
+		var reply bool
+		proj := c11Req{fmt.Sprintf("P %d 0 %d 32 32 %d", ch, rows, rows), func(h *lcH) (error, bool) {
+			pbo := &dastard.ProjectorsBasisObject{ChannelIndex: ch, ProjectorsBase64: c11Matrix(rows, 32),
+				BasisBase64: c11Matrix(32, rows), ModelDescription: "verif"}
+			return h.sc.ConfigureProjectorsBasis(pbo, &reply), false
+		}}
+		length := c11Req{fmt.Sprintf("L %d %d", lens[0], lens[1]), func(h *lcH) (error, bool) {
+			return h.sc.ConfigurePulseLengths(dastard.SizeObject{Nsamp: lens[0], Npre: lens[1]}, &reply), false
+		}}
+		directed := []c11Op{{"req", proj.text, proj}, {"blk", "B", c11Req{}}, {"req", length.text, length},
+			{"blk", "B", c11Req{}}, {"blk", "B", c11Req{}}, {"blk", "B", c11Req{}}}
+		ops = append(ops[:1], append(directed, ops[1:]...)...)
+	}
 	return ops
 }
 
